@@ -353,6 +353,9 @@ pub fn render(table: &[Entry], style: &Style, rng: &mut Rng) -> String {
             } else {
                 (*rng.pick(&["\u{3000}", "\u{a0}", "\u{2003}", "\u{3000}\t", " \u{a0}\u{a0}"])).to_string()
             }
+        } else if style.sep == 6 {
+            // tabs expanded the way `expand -t 8` writes them: the offset starts in column 16
+            " ".repeat(16usize.saturating_sub(ts.to_string().len()).max(1))
         } else {
             sep_str(style.sep, rng)
         };
@@ -364,6 +367,8 @@ pub fn render(table: &[Entry], style: &Style, rng: &mut Rng) -> String {
                 // a Unicode blank before the comment as well: no ASCII blank anywhere between
                 // the timestamp and the '#'
                 l.push_str(*rng.pick(&["\u{a0}", "\u{3000}", "\u{2003}\u{a0}"]));
+            } else if style.sep == 6 {
+                l.push_str(&" ".repeat(8usize.saturating_sub(dat.to_string().len()).max(1)));
             } else {
                 l.push_str(&sep_str(style.sep, rng));
             }
@@ -743,6 +748,13 @@ pub fn build_pool(shipped_text: String, shipped_table: Vec<Entry>, n_rendered: u
                 style.trailing_comment = true;
                 style.sep = 0;
             }
+        }
+        if i % 16 == 14 {
+            // a copy whose tabs were expanded to spaces (`expand -t 8`): ten digits, six spaces,
+            // the offset in column 16, the comment in column 24 — where, in the tab-separated
+            // original, the day of the month of the trailing comment stands (M214)
+            style.sep = 6;
+            style.trailing_comment = true;
         }
         if i % 16 == 13 {
             // the last line of the file is a data line without a line terminator
